@@ -1426,12 +1426,31 @@ pub fn c10(cfg: &Config, tr: &Trace, an: &Analysis, out: &mut Vec<Violation>) {
             continue; // (the &str payload is a constant: not attributable)
         }
         let needle = format!("{key}#{inv}");
-        let hit = tr.events.iter().find_map(|te| match te.ev.scenario().map(|x| x.2) {
-            Some(ev @ ScEv::Step(_, _, _, StepEv::Failed(p, _))) if p.contains(&needle) => Some(ev),
-            Some(ev @ ScEv::Hook(_, HookEv::Failed(p, _))) if p.contains(&needle) => Some(ev),
+        let hit = tr.events.iter().enumerate().find_map(|(i, te)| match te.ev.scenario().map(|x| x.2) {
+            Some(ev @ ScEv::Step(_, _, _, StepEv::Failed(p, _))) if p.contains(&needle) => Some((i, ev)),
+            Some(ev @ ScEv::Hook(_, HookEv::Failed(p, _))) if p.contains(&needle) => Some((i, ev)),
             _ => None,
         });
-        let Some(ev) = hit else { continue };
+        let Some((at, ev)) = hit else { continue };
+        // ... of the attempt that ran it: the same retry counter as that attempt's Started
+        if let Some((name, retries, _)) = tr.events[at].ev.scenario() {
+            let started = tr.events[..at].iter().rev().find_map(|te| match te.ev.scenario() {
+                Some((n, r, ScEv::Started)) if n == name => Some(r),
+                _ => None,
+            });
+            if let Some(sr) = started {
+                if sr != retries {
+                    out.push(v(
+                        "C10",
+                        "wrong-failed-event",
+                        format!(
+                            "the panic of {key}#{inv} is reported by a Failed event carrying retries {retries:?}, the attempt that ran it carries {sr:?}: it is not an event of that attempt"
+                        ),
+                    ));
+                    break;
+                }
+            }
+        }
         let ok = match ev {
             ScEv::Step(bg, text, _, _) => {
                 let want_bg = key.starts_with("bg ") || key.starts_with("rbg ");
